@@ -68,10 +68,10 @@ Definition expected_run : list stm :=
     SIf [ SRaise "NoValidLinesFoundInFile" ] [];   (* line_info None / falsy *)
     SExit ].                               (* OkPos (ll_start l) *)
 
-(* apply_to_file *)
-Definition expected_apply_to_file : list stm :=
-  [ SIf [ SExit ] [];                      (* not _is_valid: never (since date given) *)
-    SIf [ SIf [ SEv (Call "fd_seek") ] []; SExit ] [];   (* cached offset: C08 *)
+(* apply_to_file: its try statement.  (Before it: the `not _is_valid` exit,
+   never taken with a since date, and the cached-offset branch, which belongs
+   to C08 and may be factored into a helper.) *)
+Definition expected_apply_try : stm :=
     STry [ SEv (Call "fd_tell");
            SEv (Call "seeker_new");
            SEv (Call "seeker_run");        (* run since pos0 *)
@@ -82,14 +82,22 @@ Definition expected_apply_to_file : list stm :=
            ("NoValidLinesFoundInFile", [ SEv (Call "fd_seek") ]);        (* Some len *)
            ("TooManyLinesWithoutDate", [ SEv (Call "fd_seek") ]);        (* Some 0 *)
            ("MaxSearchableLineLengthReached", [ SEv (Call "fd_seek") ]) ] (* Some len *)
-         [] [];
-    SExit ].
+         [] [].
+
+(* the first try statement at the top level of a function *)
+Fixpoint first_try (l : list stm) : option stm :=
+  match l with
+  | [] => None
+  | STry b hs o f :: _ => Some (STry b hs o f)
+  | _ :: r => first_try r
+  end.
+Definition try_of (l : list stm) : list stm :=
+  match first_try l with Some t => [t] | None => [] end.
 
 (* what Gen/XSeek.v must contain *)
 Local Open Scope Z_scope.
 Definition expected_seek_sites : list (Z -> Z -> Z -> Z -> Z) :=
-  [ fun cached orig newoff len => cached;     (* cache hit                  *)
-    fun cached orig newoff len => orig;       (* new_offset None / non-destructive *)
+  [ fun cached orig newoff len => orig;       (* new_offset None / non-destructive *)
     fun cached orig newoff len => newoff;     (* fd.seek(new_offset)        *)
     fun cached orig newoff len => 0;          (* NoTimestampsFoundInFile    *)
     fun cached orig newoff len => (len + 0);  (* NoValidLinesFoundInFile    *)
@@ -99,6 +107,16 @@ Definition expected_getitem_args : list (Z -> Z * option Z * bool) :=
   [ fun offset => (offset, None, false);
     fun offset => ((offset + 1), None, true) ].
 Local Close Scope Z_scope.
+
+(* the statement that directly follows the (top-level) call [f] *)
+Fixpoint after_call (f : string) (l : list stm) : option stm :=
+  match l with
+  | [] => None
+  | SEv (Call g) :: r =>
+      if String.eqb g f then match r with x :: _ => Some x | [] => None end
+      else after_call f r
+  | _ :: r => after_call f r
+  end.
 
 (* -------------------------------------------------- (b) the interpreter *)
 Definition cnt : Type := (nat * nat * nat)%type.   (* events, ifs, returns *)
@@ -258,8 +276,8 @@ Section Apply.
         else INormal st
     | _ => INormal st
     end.
-  (* fresh constraint with a since date, destructive: every test is false
-     (the last one, the cache write, has no effect on the position) *)
+  (* destructive, new_offset not None: the first test of the try body is
+     false; the second (the cache write) has no effect on the position *)
   Definition ap_guard (k : nat) (st : ap_state) : bool := false.
 
   Definition ap_interp (tree : list stm) : option Z :=
